@@ -6,12 +6,16 @@
 
 // vstd gives s.len() only as `spec_bytes().len() as usize`; a str never exceeds isize::MAX bytes
 pub axiom fn axiom_str_len_fits(s: &str)
-    ensures s.spec_bytes().len() <= usize::MAX;
+    ensures s.spec_bytes().len() <= isize::MAX;
 
 // postcondition of `&s[a..b]` / `&s[a..]` restated (vstd states it through SliceIndexSpec)
 pub axiom fn axiom_slice_range(s: &str, t: &str, a: int, b: int)
     requires 0 <= a <= b <= s.spec_bytes().len()
     ensures t.spec_bytes() == s.spec_bytes().subrange(a, b);
+
+// a str value is determined by its characters (Verus compares string-literal patterns with `==` on str values)
+pub axiom fn axiom_str_ext(a: &str, b: &str)
+    ensures (a@ == b@) == (a == b);
 
 pub open spec fn is_upper(c: char) -> bool { 'A' <= c && c <= 'Z' }
 pub open spec fn is_lower_alpha(c: char) -> bool { 'a' <= c && c <= 'z' }
@@ -55,11 +59,18 @@ fn shim_take_ascii_digits(slice: &str) -> (r: String)
     ensures r@ == slice@.take(dpl(slice@) as int)
 { slice.chars().take_while(char::is_ascii_digit).collect() }
 
-// shim D6.parse_i64: X.parse::<i64>() -- specified only for 1..=18 ASCII digits (no sign);
-// everything else (longer runs, signs, junk) is left unspecified: callers must cope with both results.
+/// value pushed for a digit run: its decimal value, saturating at i64::MAX
+pub open spec fn run_value(ds: Seq<char>) -> int { if dec_value(ds) <= i64::MAX { dec_value(ds) } else { i64::MAX as int } }
+/// value of the digits after "nb": decimal value; 0 when there are none or they overflow an i64
+pub open spec fn nb_value(ds: Seq<char>) -> int { if ds.len() >= 1 && dec_value(ds) <= i64::MAX { dec_value(ds) } else { 0 } }
+
+// shim D6.parse_i64: X.parse::<i64>() -- specified for unsigned ASCII digit strings (Ok(value) iff the
+// value fits an i64, Err on overflow) and for the empty string (Err); signs and junk are left unspecified.
 #[verifier::external_body]
 fn shim_parse_i64(numstr: &str) -> (r: Result<i64, std::num::ParseIntError>)
-    ensures (1 <= numstr@.len() <= 18 && all_digits(numstr@)) ==> (r is Ok && r->Ok_0 == dec_value(numstr@)),
+    ensures (numstr@.len() >= 1 && all_digits(numstr@)) ==> (match r {
+                Ok(v) => dec_value(numstr@) <= i64::MAX && v == dec_value(numstr@),
+                Err(_) => dec_value(numstr@) > i64::MAX }),
             numstr@.len() == 0 ==> r is Err,
 { numstr.parse::<i64>() }
 
@@ -209,6 +220,13 @@ pub proof fn lemma_dpl(cs: Seq<char>)
         if n < cs.len() { assert(cs[n] == cs.skip(1)[n - 1]); }
     }
 }
+pub proof fn lemma_dec_value_nonneg(ds: Seq<char>)
+    requires all_digits(ds)
+    ensures 0 <= dec_value(ds)
+    decreases ds.len()
+{
+    if ds.len() > 0 { lemma_dec_value_nonneg(ds.drop_last()); }
+}
 pub open spec fn pow10(n: nat) -> int decreases n { if n == 0 { 1 } else { 10 * pow10((n - 1) as nat) } }
 pub proof fn lemma_dec_value_bound(ds: Seq<char>)
     requires all_digits(ds), ds.len() <= 18
@@ -224,4 +242,147 @@ pub proof fn lemma_pow10_mono(a: nat, b: nat)
 {
     if a < b { lemma_pow10_mono(a, (b - 1) as nat); }
     else if a > 0 { lemma_pow10_mono((a - 1) as nat, (a - 1) as nat); }
+}
+
+// ---------------- searching ----------------
+/// index of the last occurrence of c, or -1
+pub open spec fn last_index_of(cs: Seq<char>, c: char) -> int decreases cs.len() {
+    if cs.len() == 0 { -1 } else if cs.last() == c { cs.len() - 1 } else { last_index_of(cs.drop_last(), c) }
+}
+pub proof fn lemma_last_index_of(cs: Seq<char>, c: char)
+    ensures -1 <= last_index_of(cs, c) < cs.len(),
+        last_index_of(cs, c) >= 0 ==> cs[last_index_of(cs, c)] == c,
+        forall|i: int| last_index_of(cs, c) < i < cs.len() ==> cs[i] != c,
+        (last_index_of(cs, c) < 0) == !cs.contains(c),
+    decreases cs.len()
+{
+    if cs.len() > 0 && cs.last() != c {
+        lemma_last_index_of(cs.drop_last(), c);
+        let d = cs.drop_last();
+        assert forall|i: int| last_index_of(cs, c) < i < cs.len() implies cs[i] != c by { if i < d.len() { assert(d[i] == cs[i]); } }
+        if last_index_of(cs, c) < 0 {
+            if cs.contains(c) { let i = choose|i: int| 0 <= i < cs.len() && cs[i] == c; assert(d[i] == c); assert(d.contains(c)); }
+        } else { assert(d[last_index_of(d, c)] == c); assert(cs[last_index_of(d, c)] == c); }
+    } else if cs.len() > 0 { assert(cs[cs.len() - 1] == c); }
+}
+/// largest j <= upto with lit a prefix of cs.skip(j), or -1
+pub open spec fn last_sub_upto(cs: Seq<char>, lit: Seq<char>, upto: int) -> int decreases upto + 1 {
+    if upto < 0 { -1 } else if upto <= cs.len() && lit.is_prefix_of(cs.skip(upto)) { upto } else { last_sub_upto(cs, lit, upto - 1) }
+}
+pub open spec fn last_sub(cs: Seq<char>, lit: Seq<char>) -> int { last_sub_upto(cs, lit, cs.len() - lit.len()) }
+
+// shim D6.rsplit_once_char: X.rsplit_once('c')
+#[verifier::external_body]
+fn shim_rsplit_once_char<'a>(s: &'a str, c: char) -> (r: Option<(&'a str, &'a str)>)
+    ensures (match r {
+        Some((a, b)) => last_index_of(s@, c) >= 0 && a@ == s@.take(last_index_of(s@, c)) && b@ == s@.skip(last_index_of(s@, c) + 1),
+        None => last_index_of(s@, c) < 0,
+    })
+{ s.rsplit_once(c) }
+
+// shim D6.rsplit_once_lit: X.rsplit_once("lit")
+#[verifier::external_body]
+fn shim_rsplit_once_str<'a>(s: &'a str, p: &str) -> (r: Option<(&'a str, &'a str)>)
+    ensures (match r {
+        Some((a, b)) => last_sub(s@, p@) >= 0 && a@ == s@.take(last_sub(s@, p@)) && b@ == s@.skip(last_sub(s@, p@) + p@.len()),
+        None => last_sub(s@, p@) < 0,
+    })
+{ s.rsplit_once(p) }
+
+// shim D6.string_from: String::from(&str)
+#[verifier::external_body]
+fn shim_string_from(s: &str) -> (r: String)
+    ensures r@ == s@
+{ String::from(s) }
+
+// shim D6.ne_self_field_string: a != self.field  (a: &str, field: String)
+#[verifier::external_body]
+fn shim_str_ne_string(a: &str, b: &String) -> (r: bool)
+    ensures r == (a@ != b@)
+{ a != b }
+
+// shim D6.rsplitn2_dash: X.rsplitn(2, '-').collect::<Vec<&str>>()
+#[verifier::external_body]
+fn shim_rsplitn2_dash<'a>(s: &'a str) -> (r: Vec<&'a str>)
+    ensures last_index_of(s@, '-') >= 0 ==> (r@.len() == 2 && r@[0]@ == s@.skip(last_index_of(s@, '-') + 1) && r@[1]@ == s@.take(last_index_of(s@, '-'))),
+            last_index_of(s@, '-') < 0 ==> (r@.len() == 1 && r@[0]@ == s@),
+{ s.rsplitn(2, '-').collect() }
+
+// shim D6.str_get_range: X.get(a..b)
+#[verifier::external_body]
+fn shim_str_get<'a>(s: &'a str, a: usize, b: usize) -> (r: Option<&'a str>)
+    ensures (a <= b && b <= s.spec_bytes().len() && is_char_boundary(s.spec_bytes(), a as int) && is_char_boundary(s.spec_bytes(), b as int))
+                ==> (r is Some && r->Some_0.spec_bytes() == s.spec_bytes().subrange(a as int, b as int)),
+            !(a <= b && b <= s.spec_bytes().len() && is_char_boundary(s.spec_bytes(), a as int) && is_char_boundary(s.spec_bytes(), b as int))
+                ==> r is None,
+{ s.get(a..b) }
+
+/// char indices k >= from with cs[k] in {'>','<'}, increasing
+pub open spec fn is_op_char(c: char) -> bool { c == '>' || c == '<' }
+pub open spec fn ops_from(cs: Seq<char>, from: int) -> Seq<int> decreases cs.len() - from {
+    if from >= cs.len() || from < 0 { seq![] }
+    else if is_op_char(cs[from]) { seq![from] + ops_from(cs, from + 1) }
+    else { ops_from(cs, from + 1) }
+}
+// shim D6.match_indices_gt_lt
+#[verifier::external_body]
+fn shim_match_indices_gt_lt<'a>(s: &'a str) -> (r: Vec<(usize, &'a str)>)
+    ensures r@.len() == ops_from(s@, 0).len(),
+        forall|j: int| 0 <= j < r@.len() ==> (#[trigger] r@[j]).0 == boff(s@, ops_from(s@, 0)[j]) && r@[j].1@ == seq![s@[ops_from(s@, 0)[j]]],
+{ s.match_indices(&['>', '<']).collect() }
+
+// ---------------- bytes <-> chars for ASCII (proved) ----------------
+pub proof fn lemma_encode_scalar_ascii(c: char)
+    ensures (c as u32) < 128 ==> encode_scalar(c as u32) =~= seq![c as u8],
+            (c as u32) >= 128 ==> encode_scalar(c as u32).len() >= 2 && encode_scalar(c as u32)[0] >= 128,
+{
+    let v = c as u32;
+    if v < 128 {
+        assert(has_width_1_encoding(v));
+        assert(v & 0x7F == v) by (bit_vector) requires v < 128;
+    } else if has_width_2_encoding(v) {
+        assert((0xC0u8 | ((v >> 6) & 0x1F) as u8) >= 128) by (bit_vector);
+    } else if has_width_3_encoding(v) {
+        assert((0xE0u8 | ((v >> 12) & 0x0F) as u8) >= 128) by (bit_vector);
+    } else {
+        assert((0xF0u8 | ((v >> 18) & 0x07) as u8) >= 128) by (bit_vector);
+    }
+}
+/// the byte at the offset of char k is the leading byte of cs[k]; ASCII iff < 128
+pub proof fn lemma_byte_at(cs: Seq<char>, k: int)
+    requires 0 <= k < cs.len()
+    ensures boff(cs, k) < encode_utf8(cs).len(),
+        ((cs[k] as u32) < 128) == (encode_utf8(cs)[boff(cs, k)] < 128),
+        (cs[k] as u32) < 128 ==> encode_utf8(cs)[boff(cs, k)] == cs[k] as u8 && boff(cs, k + 1) == boff(cs, k) + 1,
+        (cs[k] as u32) >= 128 ==> boff(cs, k + 1) >= boff(cs, k) + 2,
+{
+    lemma_boundary(cs, k);
+    let b = cs.skip(k);
+    encode_utf8_first_scalar(b);
+    lemma_encode_scalar_ascii(cs[k]);
+    lemma_char_step(cs, k);
+    assert(b[0] == cs[k]);
+    assert(encode_utf8(cs)[boff(cs, k)] == encode_utf8(b)[0]);
+}
+
+// shim D6.substr_to_string: X[a..b].to_string()   (panics exactly when the slice would: kept as `requires`)
+#[verifier::external_body]
+fn shim_substr_to_string(s: &str, a: usize, b: usize) -> (r: String)
+    requires a <= b <= s.spec_bytes().len(), is_char_boundary(s.spec_bytes(), a as int), is_char_boundary(s.spec_bytes(), b as int)
+    ensures encode_utf8(r@) == s.spec_bytes().subrange(a as int, b as int)
+{ s[a..b].to_string() }
+
+pub proof fn lemma_substr_view(s: &str, r: Seq<char>, i: int, j: int)
+    requires 0 <= i <= j <= s@.len(), encode_utf8(r) == s.spec_bytes().subrange(boff(s@, i), boff(s@, j))
+    ensures r == s@.subrange(i, j)
+{
+    let cs = s@;
+    let a = cs.take(i); let m = cs.subrange(i, j);
+    assert(cs.take(j) =~= a + m);
+    encode_utf8_concat(a, m);
+    lemma_boundary(cs, j);
+    assert(s.spec_bytes() == encode_utf8(cs));
+    assert(s.spec_bytes().subrange(boff(cs, i), boff(cs, j)) =~= encode_utf8(m));
+    encode_utf8_decode_utf8(r);
+    encode_utf8_decode_utf8(m);
 }
